@@ -154,6 +154,8 @@ def handle (line : String) : String :=
   match words line with
   | "ms" :: toks => runMs toks
   | "tx" :: toks => runTx toks
+  | "sx" :: _ => "abstain"   -- real sidx: oracle only (shape covered by `query_unaffected_by_prepare` etc.)
+  | "ss" :: _ => "abstain"   -- real stream table: oracle only
   | _ => "bad-op"
 
 def main : IO Unit := runDriver handle
